@@ -510,6 +510,23 @@ def r7(ctx, rep):
                                     rep.bad(f"optional-unwrap:{f['path']}:RelationColumn::Single", f"`{show(u, maxdepth=4)}`: the name of a relation column is None for an unnamed column (`select {{x+1, y+1}}` in a "
                                             "sub-pipeline); unwrapping it panics", file=f["file"], line=u["l"], fn=f["path"])
     rep.check(n_pat >= 1, "optional:patterns", f"expected >= 1 matches on RelationColumn::Single(name) under sql/, found {n_pat}")
+    # the same optional name reached through the accessor: `col.as_single().unwrap()` is the Option<String>; a second unwrap on it assumes a named column
+    n_acc = 0
+    for f in syn.fns:
+        if f["crate"] != "prqlc" or "body" not in f or "/tests/" in f["file"] or f["file"].endswith("test.rs"):
+            continue
+        for u in walk(f["body"]):
+            if u.get("k") == "mcall" and u["m"] == "as_single":
+                n_acc += 1
+            if u.get("k") == "mcall" and u["m"] in ("unwrap", "expect"):
+                r_ = u["r"]
+                while r_.get("k") == "mcall" and r_["m"] in ("clone", "cloned", "as_ref", "as_deref", "to_owned") and not r_["a"]:
+                    r_ = r_["r"]
+                if r_.get("k") == "mcall" and r_["m"] in ("unwrap", "expect") and r_["r"].get("k") == "mcall" and r_["r"]["m"] == "as_single" \
+                        and "RelationColumn" in str(ctx.cg.recv_type_at(f["file"], r_["r"]["l"], "as_single") or "RelationColumn"):
+                    rep.bad(f"optional-unwrap:{f['path']}:as_single", f"`{show(u, maxdepth=6)}`: the name inside `RelationColumn::Single` is None for an unnamed column (`from [{{1, 2}}]` crashed here); "
+                            "unwrapping it panics", file=f["file"], line=u["l"], fn=f["path"])
+    rep.check(n_acc >= 1, "optional:accessors", f"expected >= 1 use of `.as_single()` in the compiler crate, found {n_acc}")
 
 
 def r8(ctx, rep):
